@@ -297,17 +297,54 @@ CODES07 = {-1: 'a failing/invalid unit prevented another transcript from being d
            -6: 'FASTA not written exactly once'}
 
 
-@cond('C07', bounds='N=3 transcripts x (skip, invalid, 3 failure flags) each, unbounded threads>=1',
-      encodes=ENC, stubs=STUBS, codes=CODES07, shim=False, timeout=240)
-def c07_loop_tally_n3(s0: bool, s1: bool, s2: bool, i0: bool, i1: bool, i2: bool,
-                      v0: bool, v1: bool, v2: bool, f0: bool, f1: bool, f2: bool,
-                      c0: bool, c1: bool, c2: bool, threads: int) -> int:
+def _tally_kind(kind, st0, st1, st2, x0, x1, x2, threads):
+    st = [st0, st1, st2]
+    skip = [s == 1 for s in st]
+    invalid = [s == 2 for s in st]
+    x = [x0, x1, x2]
+    no = [False, False, False]
+    return _check_tally(skip, invalid, x if kind == 0 else no, x if kind == 1 else no,
+                        x if kind == 2 else no, threads)
+
+
+_B07 = ('N=3 transcripts, each run/skipped/invalid (3^3), every subset of units failing in '
+        'the {} calls, unbounded threads>=1')
+
+
+@cond('C07', bounds=_B07.format('main-variant'), encodes=ENC, stubs=STUBS, codes=CODES07,
+      shim=False, timeout=300)
+def c07_loop_tally_variant(st0: int, st1: int, st2: int, x0: bool, x1: bool, x2: bool,
+                           threads: int) -> int:
     """
     pre: threads >= 1
+    pre: 0 <= st0 <= 2 and 0 <= st1 <= 2 and 0 <= st2 <= 2
     post: _ >= 0
     """
-    return _check_tally([s0, s1, s2], [i0, i1, i2], [v0, v1, v2], [f0, f1, f2],
-                        [c0, c1, c2], threads)
+    return _tally_kind(0, st0, st1, st2, x0, x1, x2, threads)
+
+
+@cond('C07', bounds=_B07.format('fusion'), encodes=ENC, stubs=STUBS, codes=CODES07,
+      shim=False, timeout=300)
+def c07_loop_tally_fusion(st0: int, st1: int, st2: int, x0: bool, x1: bool, x2: bool,
+                          threads: int) -> int:
+    """
+    pre: threads >= 1
+    pre: 0 <= st0 <= 2 and 0 <= st1 <= 2 and 0 <= st2 <= 2
+    post: _ >= 0
+    """
+    return _tally_kind(1, st0, st1, st2, x0, x1, x2, threads)
+
+
+@cond('C07', bounds=_B07.format('circRNA'), encodes=ENC, stubs=STUBS, codes=CODES07,
+      shim=False, timeout=300)
+def c07_loop_tally_circ(st0: int, st1: int, st2: int, x0: bool, x1: bool, x2: bool,
+                        threads: int) -> int:
+    """
+    pre: threads >= 1
+    pre: 0 <= st0 <= 2 and 0 <= st1 <= 2 and 0 <= st2 <= 2
+    post: _ >= 0
+    """
+    return _tally_kind(2, st0, st1, st2, x0, x1, x2, threads)
 
 
 # --------------------------------------------------------------------------
